@@ -41,7 +41,7 @@ func vxPlugins(code int32, key string, audit bool) []erpc.Plugin {
 
 // VX_C17_Call: client and server peers with the secure plugin; the harness
 // carries the frames between two scripted connections and inspects them.
-// args: secureMark(0 absent, 1 true), accept(0 absent, 1 "true", 2 "false"), sameKey(0/1), nBody[, otherPluginAfter(0/1)[, explicitOKStatus(0/1)]]
+// args: secureMark(0 absent, 1 true), accept(0 absent, 1 "true", 2 "false"), sameKey(0/1), nBody[, otherPluginAfter(0/1)[, explicitOKStatus(0/1)[, nilResult(0/1)]]]
 func VX_C17_Call(args []int) {
 	mark, accept, sameKey, nBody := args[0], args[1], args[2], args[3]
 	skey := vxKeyA
@@ -82,7 +82,12 @@ func VX_C17_Call(args []int) {
 		settings = append(settings, WithAcceptSecureMeta(false))
 	}
 	var got []byte
-	cmd := cs.AsyncCall("/secret/op", arg, &got, make(chan erpc.CallCmd, 1), settings...)
+	nilResult := len(args) > 6 && args[6] == 1 // the caller is not interested in the result body (nil result)
+	var resultArg interface{} = &got
+	if nilResult {
+		resultArg = nil
+	}
+	cmd := cs.AsyncCall("/secret/op", arg, resultArg, make(chan erpc.CallCmd, 1), settings...)
 	vxAssert(cconn.nWrites() == 1, "call written")
 	if cconn.nWrites() != 1 {
 		return
@@ -133,6 +138,14 @@ func VX_C17_Call(args []int) {
 	default:
 	}
 	vxAssert(done, "[C02] call completed")
+	vxAssert(done, "a call through the secure plugin completes: its result or a status is delivered to the caller")
+	if nilResult {
+		if done && sameKey == 1 {
+			vxAssert(cmd.StatusOK(), "caller that asked for no result body sees OK")
+		}
+		vxCover("c17.call")
+		return
+	}
 	if done && mark == 0 && accept == 1 && sameKey == 0 {
 		// the reply was encrypted with a key the caller does not have
 		vxAssert(!cmd.StatusOK(), "different key on the caller's side: a non-OK status is reported for the encrypted reply")
